@@ -551,7 +551,8 @@ impl Wrap {
         // a flush tail: repeated None calls
         if rng.chance(0.4) {
             for _ in 0..rng.ui(1, 4) {
-                ops.push(Op::Partial { frac: None, into: rng.bool(), mask: None, ragged: None });
+                let m = if rng.chance(0.4) { Some(gen_mask(&mut rng, cfg.channels)) } else { None };
+                ops.push(Op::Partial { frac: None, into: rng.bool(), mask: m, ragged: None });
             }
         }
         let s1 = rng.next();
